@@ -78,3 +78,70 @@ for k_ in (0, 1, 2):
                  method_effects={'should_install': {'returns': Bool, 'raises': []}, 'log': [], 'isfile': {'returns': Bool, 'raises': []}, 'makedirs': [], 'set_mode': []},
                  modifies=['self.did_install_something'], floor=max(3, 3 * k_),
                  note=f'{k_} entr{"y" if k_ == 1 else "ies"}: each selected entry: destination computed from (destdir, prefix, path), directory created with exist_ok, then set_mode(destination, its install_mode, install_umask) — always, also when the directory exists already; an existing FILE of that name aborts the installation')
+
+# ---- install_data / install_man / install_headers: every selected entry is copied to its destination and then gets its mode,
+# whether or not the copy did anything (an up-to-date file still gets the declared mode).  Unrolled for 1 and 2 entries.
+CP = "[e for e in __trace__ if e[0] == 'do_copyfile']"
+FileS = Struct('InstallDataBase', 'mesonbuild.backend.backends:InstallDataBase', path=Str, install_path=Str, install_mode=Obj, subproject=Str, tag=Opt(Str), follow_symlinks=Opt(Bool))
+for fn_, field_, hdr_ in (('install_data', 'data', False), ('install_man', 'man', False), ('install_headers', 'headers', True)):
+    for k_ in (1, 2):
+        DataK = Struct('InstallData', 'mesonbuild.backend.backends:InstallData', install_umask=Int, **{field_: TupleS(*([FileS] * k_))})
+        InstK = Struct('Installer', 'mesonbuild.minstall:Installer', did_install_something=Bool)
+        OUT = (lambda i: f"os.path.join({GD}[{i}][-1], os.path.basename({CP}[{i}][1]))") if hdr_ else (lambda i: f"{GD}[{i}][-1]")
+        ens = [f"len({SI}) == {k_}", f"len({CP}) == len({GD}) and len({SM}) == len({GD})",
+               f"all({GD}[i][1] == destdir and {GD}[i][2] == fullprefix for i in range(len({GD})))"]
+        for n_ in range(1, k_ + 1):
+            guard = f"len({GD}) >= {n_}"
+            i = n_ - 1
+            ens += [f"({CP}[{i}][2] == {OUT(i)} and {SM}[{i}][1] == {OUT(i)} and {SM}[{i}][3] == d.install_umask) if {guard} else True",
+                    f"(kw({CP}[{i}], 'makedirs', None)[0] is dm) if {guard} else True"]
+        E = f"d.{field_}"
+        if k_ == 1:
+            ens += [f"len({GD}) == (1 if {SI}[0][-1] else 0)",
+                    f"({GD}[0][3] == {E}[0].install_path and {CP}[0][1] == {E}[0].path and {SM}[0][2] is {E}[0].install_mode) if len({GD}) == 1 else True"]
+        else:
+            ens += [f"len({GD}) == (1 if {SI}[0][-1] else 0) + (1 if {SI}[1][-1] else 0)",
+                    f"({GD}[0][3] == {E}[0].install_path and {CP}[0][1] == {E}[0].path and {SM}[0][2] is {E}[0].install_mode and {GD}[1][3] == {E}[1].install_path and {CP}[1][1] == {E}[1].path and {SM}[1][2] is {E}[1].install_mode) if len({GD}) == 2 else True",
+                    f"implies({SI}[0][-1], {GD}[0][3] == {E}[0].install_path and {CP}[0][1] == {E}[0].path and {SM}[0][2] is {E}[0].install_mode) if len({GD}) == 1 else True",
+                    f"implies(not {SI}[0][-1], {GD}[0][3] == {E}[1].install_path and {CP}[0][1] == {E}[1].path and {SM}[0][2] is {E}[1].install_mode) if len({GD}) == 1 else True"]
+        anycp = ' or '.join(f"({CP}[{i}][-1] if len({CP}) > {i} else False)" for i in range(k_))
+        ens += [f"new(self).did_install_something == (self.did_install_something or {anycp})"]
+        REG.contract('C11', I, f'Installer.{fn_}', variant=f'entries{k_}', params={'self': InstK, 'd': DataK, 'dm': Obj, 'destdir': Str, 'fullprefix': Str},
+                     ensures=ens, effects={'get_destdir_path': {'returns': Str, 'raises': []}},
+                     method_effects={'should_install': {'returns': Bool, 'raises': []}, 'do_copyfile': {'returns': Bool, 'raises': []}, 'set_mode': []},
+                     modifies=['self.did_install_something'], floor=4 + 2 * k_,
+                     note=f'{k_} entr{"y" if k_ == 1 else "ies"}: each selected entry is copied from its source to its destination (' + ('the header directory joined with the base name of the source' if hdr_ else 'computed from destdir, prefix and its install path') + ') and then set_mode(destination, its install_mode, install_umask) is applied — also when the copy reports that nothing had to be done; something was installed iff some copy says so')
+
+# ---- install_symlinks / install_subdirs, one entry
+LN = "[e for e in __trace__ if e[0] == 'do_symlink']"
+CD = "[e for e in __trace__ if e[0] == 'do_copydir']"
+LinkS = Struct('InstallSymlinkData', 'mesonbuild.backend.backends:InstallSymlinkData', target=Str, name=Str, install_path=Str, subproject=Str, tag=Opt(Str))
+REG.contract('C11', I, 'Installer.install_symlinks', variant='entries1',
+             params={'self': Struct('Installer', 'mesonbuild.minstall:Installer', did_install_something=Bool),
+                     'd': Struct('InstallData', 'mesonbuild.backend.backends:InstallData', symlinks=TupleS(LinkS)), 'dm': Obj, 'destdir': Str, 'fullprefix': Str},
+             ensures=[f"len({SI}) == 1 and {SI}[0][1] is d.symlinks[0]",
+                      f"implies(not {SI}[0][-1], len({GD}) == 0 and len({MK}) == 0 and len({LN}) == 0)",
+                      f"implies({SI}[0][-1], len({GD}) == 2 and len({MK}) == 1 and len({LN}) == 1)",
+                      f"({GD}[0][1] == destdir and {GD}[0][2] == fullprefix and {GD}[0][3] == d.symlinks[0].install_path and {GD}[1][1] == destdir and {GD}[1][2] == fullprefix and {GD}[1][3] == d.symlinks[0].name) if len({GD}) == 2 else True",
+                      f"({MK}[0][1] is dm and {MK}[0][2] == {GD}[0][-1] and kw({MK}[0], 'exist_ok', False) is True) if len({GD}) == 2 and len({MK}) == 1 else True",
+                      # the link is created with EXACTLY the declared target text (never resolved, never re-rooted) under the re-rooted name
+                      f"({LN}[0][1] == d.symlinks[0].target and {LN}[0][2] == {GD}[1][-1] and {LN}[0][3] == destdir and {LN}[0][4] == {GD}[0][-1]) if len({GD}) == 2 and len({LN}) == 1 else True",
+                      f"new(self).did_install_something == (self.did_install_something or ({LN}[0][-1] if len({LN}) == 1 else False))"],
+             effects={'get_destdir_path': {'returns': Str, 'raises': []}},
+             method_effects={'should_install': {'returns': Bool, 'raises': []}, 'do_symlink': {'returns': Bool, 'raises': []}, 'makedirs': []},
+             modifies=['self.did_install_something'], floor=7,
+             note='a selected symlink: its directory (re-rooted) is created, then the link is made under its re-rooted name with exactly the declared target text')
+SubS = Struct('SubdirInstallData', 'mesonbuild.backend.backends:SubdirInstallData', path=Str, install_path=Str, install_mode=Obj, subproject=Str, tag=Opt(Str), follow_symlinks=Opt(Bool), exclude=Obj)
+REG.contract('C11', I, 'Installer.install_subdirs', variant='entries1',
+             params={'self': Struct('Installer', 'mesonbuild.minstall:Installer', did_install_something=Bool),
+                     'd': Struct('InstallData', 'mesonbuild.backend.backends:InstallData', install_subdirs=TupleS(SubS)), 'dm': Obj, 'destdir': Str, 'fullprefix': Str},
+             ensures=[f"len({SI}) == 1 and {SI}[0][1] is d.install_subdirs[0]",
+                      f"implies(not {SI}[0][-1], len({GD}) == 0 and len({MK}) == 0 and len({CD}) == 0 and new(self).did_install_something == self.did_install_something)",
+                      f"implies({SI}[0][-1], len({GD}) == 1 and len({MK}) == 1 and len({CD}) == 1 and new(self).did_install_something)",
+                      f"({GD}[0][1] == destdir and {GD}[0][2] == fullprefix and {GD}[0][3] == d.install_subdirs[0].install_path and {MK}[0][2] == {GD}[0][-1]) if len({GD}) == 1 and len({MK}) == 1 else True",
+                      f"({CD}[0][1] is d and {CD}[0][2] == d.install_subdirs[0].path and {CD}[0][3] == {GD}[0][-1] and {CD}[0][4] is d.install_subdirs[0].exclude and {CD}[0][5] is d.install_subdirs[0].install_mode and {CD}[0][6] is dm) if len({GD}) == 1 and len({CD}) == 1 else True",
+                      f"(kw({CD}[0], 'follow_symlinks', 0) is d.install_subdirs[0].follow_symlinks) if len({CD}) == 1 else True"],
+             effects={'get_destdir_path': {'returns': Str, 'raises': []}},
+             method_effects={'should_install': {'returns': Bool, 'raises': []}, 'do_copydir': [], 'makedirs': [], 'log': []},
+             modifies=['self.did_install_something'], floor=6,
+             note='a selected subdirectory: its destination (re-rooted) is created and the tree is copied there with ITS excludes, mode and follow_symlinks setting')
